@@ -18,8 +18,7 @@ fuzz_target!(|data: &[u8]| {
     }
     let mut rec = Rec::new();
     rec.on = false;
-    let (next, body) = if data.len() > 6 { (data[..6].iter().map(|b| b % 6).collect(), &data[6..]) } else { (vec![1, 2, 0, 4, 5, 3], data) };
-    let case = c09::FText { bytes: body.to_vec(), origin: "libfuzzer".into(), next };
+    let case = c09::ftext_from_fuzz(data);
     if let Verdict::Fail { sig, msg } = c09::check_text_pub(&case, &mut rec) {
         panic!("VIOLATION {sig}: {msg}");
     }
